@@ -1631,15 +1631,6 @@ class Container:
         if solute not in self.contents or self.contents[solute] == 0:
             raise ValueError(f"Container does not contain {solute.name}.")
 
-        new_ratio, numerator, denominator = Unit.calculate_concentration_ratio(solute, concentration, solvent)
-
-        if numerator == 'U':
-            if not solute.is_enzyme():
-                raise ValueError("Solution is impossible to create. (Only an enzyme is measured in activity units.)")
-
-        if new_ratio <= 0:
-            raise ValueError("Solution is impossible to create.")
-
         def measure(substance: Substance, value: float, unit: str) -> float:
             """ Converts a stored amount of substance to unit. """
             return Unit.convert_from(substance, value,
@@ -1660,6 +1651,15 @@ class Container:
             if name:
                 result.name = name
             return result
+
+        # (whether solvent can bring the concentration about is asked after that: the binary-mixture formula has no
+        # answer at the pure solute, which is what a neat stock holds - '100 %v/v' is the first member of its series)
+        new_ratio, numerator, denominator = Unit.calculate_concentration_ratio(solute, concentration, solvent)
+        if numerator == 'U':
+            if not solute.is_enzyme():
+                raise ValueError("Solution is impossible to create. (Only an enzyme is measured in activity units.)")
+        if new_ratio <= 0:
+            raise ValueError("Solution is impossible to create.")
 
         if new_concentration > current_concentration:
             raise ValueError("Desired concentration is higher than current concentration.")
@@ -2484,8 +2484,9 @@ class Recipe:
         # if solute not in destination.contents:
         #     raise ValueError(f"Container does not contain {solute.name}.")
 
-        ratio, *_ = Unit.calculate_concentration_ratio(solute, concentration, solvent)
-        if ratio <= 0:
+        # (whether the concentration can be reached depends on what the container holds by then - its own concentration
+        # needs nothing, even that of the pure solute: that is decided when the step is carried out)
+        if Unit.parse_concentration(concentration)[0] <= 0:
             raise ValueError("Concentration is impossible to create.")
 
         if new_name:
